@@ -375,14 +375,16 @@ def _plans(tier, rng):
     out.append(("Net(1,3,3) complete", list(scope.networks(1, 3, 3)), True, full,
                 "all 1-tensor networks (rank <= 3 over <= 3 symbols, every output order); 8+3 parameter samples per finder"))
     if tier == "quick":
-        out.append(("Net(2,3,3) complete", list(scope.networks(2, 3, 3)), True, light,
-                    "all 3108 networks; every preset x 4 entry points; 2+1 parameter samples per registered finder (seeded per network)"))
-        out.append(("Net(3,3,2) complete", list(scope.networks(3, 3, 2)), True, light,
-                    "all 4106 networks; every preset x 4 entry points; 2+1 parameter samples per registered finder"))
-        out.append(("Net(3,3,3) sample", scope.sample_networks(3, 3, 3, 400, rng), False, full, "seeded sample of 400 of 152423; 8+3 parameter samples"))
-        out.append(("Net(4,4,2) sample", scope.sample_networks(4, 4, 2, 600, rng), False, full, "seeded sample of 600 of 318811; 8+3 parameter samples"))
-        out.append(("Net(5..8,6,3) sample", big_networks(500, rng), False, full,
-                    "seeded sample of 500 networks with 5-8 tensors over 6 symbols, rank <= 3; 8 samples of each registered space + 3 with small cutoff/groupsize"))
+        out.append(("Net(2,3,3) complete", list(scope.networks(2, 3, 3)), True, full,
+                    "all 3108 networks; every preset x 4 entry points; 8+3 parameter samples per registered finder (seeded per network)"))
+        out.append(("Net(3,3,2) complete", list(scope.networks(3, 3, 2)), True, full,
+                    "all 4106 networks; every preset x 4 entry points; 8+3 parameter samples per registered finder"))
+        out.append(("Net(3,3,3) sample", scope.sample_networks(3, 3, 3, 1500, rng), False, full, "seeded sample of 1500 of 152423; 8+3 parameter samples"))
+        out.append(("Net(4,4,2) sample", scope.sample_networks(4, 4, 2, 1500, rng), False, full, "seeded sample of 1500 of 318811; 8+3 parameter samples"))
+        out.append(("Net(5..8,6,3) sample", big_networks(1200, rng), False, full,
+                    "seeded sample of 1200 networks with 5-8 tensors over 6 symbols, rank <= 3; 8 samples of each registered space + 3 with small cutoff/groupsize"))
+        out.append(("Net(13..14,8,3) sample", big_networks(24, rng, 13, 14, 8, 3), False, light,
+                    "seeded sample of 24 networks with 13-14 tensors: above the registered cutoffs, and 'auto' leaves the optimal regime (hyper-optimizer branch)"))
     else:
         out.append(("Net(2,3,3) complete", list(scope.networks(2, 3, 3)), True, full, "all 3108 networks; 8+3 parameter samples"))
         out.append(("Net(3,3,2) complete", list(scope.networks(3, 3, 2)), True, full, "all 4106 networks; 8+3 parameter samples"))
